@@ -28,6 +28,11 @@ def make(spec, name, st, engine=None):
         if ek == "float":
             ek = "real"
         return st.alloc(SList(z3.Const(name, z3.SeqSort(SORTS[ek])), ek))
+    if spec.startswith("alist["):
+        ek = spec[6:-1].strip()
+        if ek == "float":
+            ek = "real"
+        return st.alloc(AList(z3.Const(name + ".arr", z3.ArraySort(z3.IntSort(), SORTS[ek])), z3.Int(name + ".len"), ek))
     if spec.startswith("fn"):
         # 'fn' or 'fn:contractname'
         cname = spec[3:] if spec.startswith("fn:") else name
@@ -60,6 +65,8 @@ def kind_matches(v, spec, st):
         if alt.startswith("fn") and v.k == FN:
             return True
         if alt.startswith("list[") and v.k == REF and isinstance(st.heap[v.t], (SList, CList)):
+            return True
+        if alt.startswith("alist[") and v.k == REF and isinstance(st.heap[v.t], AList):
             return True
         if alt.startswith("obj:") and v.k == REF and isinstance(st.heap[v.t], Obj) and st.heap[v.t].cls == alt[4:]:
             return True
